@@ -5,21 +5,33 @@ write_thermdat and read_thermdat are interpreted over abstract strings
 symbolic species is fed to the reader and the species it builds are compared
 attribute by attribute with the originals, for every enumerated combination
 of field widths.
-"""
-import itertools
 
-from ..absstr import SegStr, spec_sigdigits
+Where the reader takes a decision that depends on how the user spelled a text
+(a value-dependent test met on a record line), the instance is repeated with
+concrete spellings that make the test come out the other way: both outcomes
+must give back the species that were written.
+"""
+import ast
+import itertools
+import re
+
+from ..absstr import SegStr
 from ..nf import Rat, C
-from ..source import Unsupported, AnchorError
+from ..source import Unsupported, AnchorError, norm
 from ..xlate import Interp, Obj, ListV, DictV, Raised, RankOrder
 from .common import same, show
 
 TD = 'pmutt.io.thermdat'
 Z = '\x00'
+FILL = 'Q'          # padding of a spelled-out text: no chemical meaning, in no keyword of the format
+# the value that stands for a count with d digits when the code compares it: inside the class, its smallest and its
+# largest member (a threshold that is off by one at a power of ten is decided differently at the two ends)
+WITNESS = {'mid': lambda d: 5 * 10 ** (d - 1), 'lo': lambda d: 10 ** (d - 1), 'hi': lambda d: 10 ** d - 1}
 
 
-def make_species(I, idx, name_w, notes, elements, temps_w, phase_w=1):
-    """elements: list of (symbol width, count digits or 0 for a zero-count entry)"""
+def make_species(I, idx, name_w, notes, elements, temps_w, phase_w=1, counts='mid'):
+    """elements: list of (symbol width, count digits or 0 for a zero-count entry); name, notes and phase: a width (the
+    text is symbolic) or the text itself"""
     D = I.D
     tag = 's%d' % idx
     if isinstance(name_w, str):
@@ -27,9 +39,12 @@ def make_species(I, idx, name_w, notes, elements, temps_w, phase_w=1):
     else:
         name = Z + tag + '.name'
         I.sym_strings[name] = (name_w, 'text')
-    phase = Z + tag + '.phase'
-    I.sym_strings[phase] = (phase_w, 'text')
-    if notes is None or notes == '':
+    if isinstance(phase_w, str):
+        phase = phase_w
+    else:
+        phase = Z + tag + '.phase'
+        I.sym_strings[phase] = (phase_w, 'text')
+    if notes is None or isinstance(notes, str):
         nv = notes
     else:
         nv = Z + tag + '.notes'
@@ -39,7 +54,7 @@ def make_species(I, idx, name_w, notes, elements, temps_w, phase_w=1):
         sym = Z + '%s.el%d' % (tag, k)
         I.sym_strings[sym] = (sw, 'alpha')
         cnt = D.sym('%s.n%d' % (tag, k))
-        I.order.ranks['%s.n%d' % (tag, k)] = 5 * 10 ** (digits - 1) if digits else 0   # a witness with that many digits
+        I.order.ranks['%s.n%d' % (tag, k)] = WITNESS[counts](digits) if digits else 0   # a witness with that many digits
         I.int_syms.add('%s.n%d' % (tag, k))           # element counts are whole numbers
         if digits:
             I.num_widths[repr(cnt)] = digits
@@ -56,19 +71,22 @@ def make_species(I, idx, name_w, notes, elements, temps_w, phase_w=1):
     return Obj(tag, attrs=attrs)
 
 
+_SPEC = re.compile(r'^%?(?:.?[<>=^])?[ +\-#0]*\d*[,_]?(?:\.(\d+))?([a-zA-Z])$')
+
+
 def printed_ok(spec, need):
-    """does a number printed with ``spec`` come back within the tolerance the property states?  need: 'T' (0.1 K:
-    fixed notation with at least one decimal) or 'coef' (nine significant digits)"""
-    import re as _re
-    mm = _re.match(r'^%?[ +\-#0]*\d*(?:\.(\d+))?([a-zA-Z])$', spec or '')
+    """does a number printed with ``spec`` (%-style or format-style) come back within the tolerance the property
+    states?  need: 'T' (0.1 K at up to 9999.9 K: fixed notation with a decimal, or five significant digits) or 'coef'
+    (nine significant digits)"""
+    mm = _SPEC.match(spec or '')
     if not mm:
         return False
     prec, typ = mm.group(1), mm.group(2)
     prec = int(prec) if prec is not None else 6
     if need == 'T':
-        return (typ in 'fF' and prec >= 1) or (typ in 'eE' and prec >= 5)
+        return (typ in 'fF' and prec >= 1) or (typ in 'eE' and prec >= 5) or (typ in 'gG' and prec >= 6)
     if need == 'coef':
-        return typ in 'eE' and prec >= 8
+        return (typ in 'eE' and prec >= 8) or (typ in 'gG' and prec >= 9)
     return False
 
 
@@ -77,11 +95,12 @@ def val_eq(I, a, b, need=None):
     if isinstance(a, Rat) and isinstance(b, Rat):
         if a.eq(b):
             return True
-        # a number read back from its printed form: the printed value, if the format keeps the stated precision
+        # a number read back from its printed form (or through any other step that rounds, which the interpreter
+        # records the same way): the value that went in, if every step keeps the stated precision
         ats = list(a.atoms())
         if len(ats) == 1 and ats[0] in I.printed and a.eq(Rat.atom(ats[0])):
             spec, v = I.printed[ats[0]]
-            return v.eq(b) and printed_ok(spec, need)
+            return printed_ok(spec, need) and val_eq(I, v, b, need)
         return False
     if isinstance(a, ListV) and isinstance(b, ListV):
         return len(a) == len(b) and all(val_eq(I, x, y, need) for x, y in zip(a.items, b.items))
@@ -92,25 +111,14 @@ def val_eq(I, a, b, need=None):
     return a == b
 
 
-def roundtrip(run, repo, label, specs, write_date=False, as_dict=False, fmt='list', supp=None, order=None,
-              to_file=False, sign=None):
-    m = repo.module(TD)
-    wfn, rfn = m.functions.get('write_thermdat'), m.functions.get('read_thermdat')
-    if wfn is None or rfn is None:
-        raise AnchorError('write_thermdat/read_thermdat not found')
+def new_interp(repo, sign=None):
     I = Interp(repo, order=RankOrder({}, const_ranks=True))
     I.track_print_precision = True      # what is read back is the number as printed, not the number that was printed
     I.sign_policy = sign                # None: any sign; 'nonnegative' / 'negative': all numbers of this run
-    built = []
-
-    def nasa_stub(I_, fr, args, kwargs):
-        o = Obj('read#%d' % len(built), attrs=dict(kwargs))
-        built.append(o)
-        return o
-    I.opaque_classes['pmutt.empirical.nasa.Nasa'] = nasa_stub
 
     def now(I_, fr, args, kwargs, n):
         o = Obj('now')
+
         def strftime(I2, o2, a, k):
             fmt_ = a[0] if a else k.get('format')
             if not isinstance(fmt_, str):
@@ -130,7 +138,29 @@ def roundtrip(run, repo, label, specs, write_date=False, as_dict=False, fmt='lis
         o.opaque_methods['strftime'] = strftime
         return o
     I.native['datetime.datetime.now'] = now
-    species = [make_species(I, i, *sp) for i, sp in enumerate(specs)]
+    return I
+
+
+COMMENT = '! species fitted in this work'
+
+
+def roundtrip(run, repo, label, specs, write_date=False, as_dict=False, fmt='list', supp=None, order=None,
+              to_file=False, sign=None, counts='mid', reuse=None, tag0=0):
+    """``reuse``: the result of an earlier round trip whose interpreter (program state: caches, module-level
+    containers, default arguments, the files written so far) goes on being used; ``tag0`` keeps the symbols apart"""
+    m = repo.module(TD)
+    wfn, rfn = m.functions.get('write_thermdat'), m.functions.get('read_thermdat')
+    if wfn is None or rfn is None:
+        raise AnchorError('write_thermdat/read_thermdat not found')
+    I = reuse['I'] if reuse is not None else new_interp(repo, sign)
+    built = []
+
+    def nasa_stub(I_, fr, args, kwargs):
+        o = Obj('read#%d.%d' % (tag0, len(built)), attrs=dict(kwargs))
+        built.append(o)
+        return o
+    I.opaque_classes['pmutt.empirical.nasa.Nasa'] = nasa_stub
+    species = [make_species(I, tag0 + i, *sp, counts=counts) for i, sp in enumerate(specs)]
     if order is not None:
         species = [species[i] for i in order]          # a sequence may hold the same species (name) more than once
     coll = DictV({sp.attrs['name']: sp for sp in species}) if as_dict else ListV(list(species))
@@ -138,9 +168,10 @@ def roundtrip(run, repo, label, specs, write_date=False, as_dict=False, fmt='lis
     expect = list(species)
     if supp is not None:
         # supplementary entries: records of another species as write_thermdat itself lays them out, and a comment
-        # block; both with and without a final newline (documented options, any combination)
+        # block (the rule's text, or the one given); both with and without a final newline (documented options, any
+        # combination)
         data_nl, txt, txt_nl = supp
-        extra = make_species(I, 9, 5, None, [(1, 1), (1, 2)], (5, 6, 6))
+        extra = make_species(I, tag0 + 9, 5, None, [(1, 1), (1, 2)], (5, 6, 6))
         if data_nl is not None:
             t0 = I.call_function(m, wfn, [], {'nasa_species': ListV([extra]), 'write_date': False})
             if isinstance(t0, Raised) or not isinstance(t0, (SegStr, str)):
@@ -154,13 +185,13 @@ def roundtrip(run, repo, label, specs, write_date=False, as_dict=False, fmt='lis
             wkw['supp_data'] = sd
             expect = [extra] + expect
         if txt:
-            wkw['supp_txt'] = '! species fitted in this work' + ('\n' if txt_nl else '')
+            wkw['supp_txt'] = (txt if isinstance(txt, str) else COMMENT) + ('\n' if txt_nl else '')
     if to_file:
         # the file branch of the writer: what ends up in the file is what a reader gets
         wkw['filename'] = 'thermdat'
     text = I.call_function(m, wfn, [], wkw)
     species = expect
-    res = {'I': I, 'species': species, 'text': text, 'read': None, 'built': built}
+    res = {'I': I, 'species': species, 'text': text, 'read': None, 'built': built, 'fmt': fmt}
     if to_file:
         if isinstance(text, Raised):
             res['write_error'] = text
@@ -181,6 +212,24 @@ def roundtrip(run, repo, label, specs, write_date=False, as_dict=False, fmt='lis
     out = I.call_function(m, rfn, [], {'filename': 'thermdat', 'format': fmt})
     res['read'] = out
     return res
+
+
+def read_again(repo, res, fmt):
+    """the file as it stands is read once more by the same program"""
+    m = repo.module(TD)
+    I = res['I']
+    built = []
+
+    def nasa_stub(I_, fr, args, kwargs):
+        o = Obj('again#%d' % len(built), attrs=dict(kwargs))
+        built.append(o)
+        return o
+    I.opaque_classes['pmutt.empirical.nasa.Nasa'] = nasa_stub
+    out = dict(res)
+    out['built'] = built
+    out['fmt'] = fmt
+    out['read'] = I.call_function(m, m.functions['read_thermdat'], [], {'filename': 'thermdat', 'format': fmt})
+    return out
 
 
 def layout_rules(run, repo, res, label):
@@ -221,10 +270,10 @@ def layout_rules(run, repo, res, label):
                     f = None
                 ok = ok and f is not None and f.cls == 'num'
                 if f is not None and f.spec is not None:
-                    sd = spec_sigdigits(f.spec)
-                    run.check(sd is not None and sd >= 9, 'TABLE.precision', 'thermdat.write_thermdat record %d' % num,
-                              'coefficient precision', 'coefficients are written with %s significant digits, the '
-                              'property needs nine (spec %r)' % (sd, f.spec), m, fn)
+                    # whichever way the format is spelled ('{: 2.8E}', '% .8E', ...)
+                    run.check(printed_ok(f.spec, 'coef'), 'TABLE.precision', 'thermdat.write_thermdat record %d' % num,
+                              'coefficient precision', 'coefficients are written with fewer than the nine significant '
+                              'digits the property needs (spec %r)' % (f.spec,), m, fn)
             run.check(ok, 'TABLE.fields', 'thermdat.write_thermdat record %d' % num, 'five 15-column fields',
                       '[%s] record %d does not consist of %d coefficient fields of 15 characters: %s'
                       % (label, num, nf, show(line, 200)), m, fn)
@@ -253,8 +302,8 @@ def layout_rules(run, repo, res, label):
                     why = 'cell %d: %s' % (cell + 1, e)
                 cell += 1
             try:
-                ph = line.slice(44, 45).single_field()
-                if ph is None or ph.value != sp.attrs['phase']:
+                ph = I.plain(line.slice(44, 45))
+                if ph != sp.attrs['phase']:
                     good = False
                     why = 'column 45 holds %s, not the phase' % show(line.slice(44, 45), 60)
             except Exception as e:
@@ -265,7 +314,8 @@ def layout_rules(run, repo, res, label):
                       'sit in column 45: %s' % (label, why), m, fn1)
 
 
-def compare_species(run, repo, res, label, key_suffix=''):
+def species_diff(repo, res, label):
+    """[(key, message, node, sample)] - an entry per comparison; message None where it holds"""
     m = repo.module(TD)
     I = res['I']
     rfn = m.functions['read_thermdat']
@@ -273,28 +323,32 @@ def compare_species(run, repo, res, label, key_suffix=''):
     species = res['species']
     if isinstance(out, Raised):
         where = out.node
-        run.fail('TABLE.readback', 'thermdat.read_thermdat', 'raises' + key_suffix,
-                 '[%s] reading back the file pMuTT wrote raises %s' % (label, out.exc), m,
-                 where if hasattr(where, 'lineno') else rfn)
-        return False
+        return [('raises', '[%s] reading back the file pMuTT wrote raises %s' % (label, out.exc),
+                 where if hasattr(where, 'lineno') else rfn, None)]
+    diffs = []
+    # the documented container per format
+    kind = {'list': 'list', 'tuple': 'tuple', 'dict': 'dict'}.get(res.get('fmt'))
     if isinstance(out, DictV):
         items = list(out.d.values())
         keys_ok = [I.plain(k) for k in out.d] == [sp.attrs['name'] for sp in species]
-        run.check(keys_ok, 'TABLE.readback', 'thermdat.read_thermdat', 'dict keys' + key_suffix,
-                  '[%s] dictionary keys are not the species names in order' % label, m, rfn)
+        diffs.append(('dict keys', None if keys_ok else
+                      '[%s] dictionary keys are not the species names in order' % label, rfn, None))
     elif isinstance(out, ListV):
         items = out.items
     else:
-        run.fail('TABLE.readback', 'thermdat.read_thermdat', 'result' + key_suffix,
-                 '[%s] unexpected result %s' % (label, show(out)), m, rfn)
-        return False
-    ok = run.check(len(items) == len(species), 'TABLE.readback', 'thermdat.read_thermdat', 'species count' + key_suffix,
-                   '[%s] %d species written, %d read back (dropped, duplicated or merged)'
-                   % (label, len(species), len(items)), m, rfn)
-    if not ok:
-        return False
-    good = True
+        return [('result', '[%s] unexpected result %s' % (label, show(out)), rfn, None)]
+    if kind is not None:
+        diffs.append(('container', None if isinstance(out, DictV) == (kind == 'dict') else
+                      '[%s] format=%r returns %s' % (label, res.get('fmt'), type(out).__name__), rfn, None))
+    if len(items) != len(species):
+        diffs.append(('species count', '[%s] %d species written, %d read back (dropped, duplicated or merged)'
+                      % (label, len(species), len(items)), rfn, None))
+        return diffs
+    diffs.append(('species count', None, rfn, None))
     for sp, rd in zip(species, items):
+        if not isinstance(rd, Obj):
+            diffs.append(('result', '[%s] entry %s of the result is not a species' % (label, show(rd)), rfn, None))
+            continue
         for attr in ('name', 'phase', 'elements', 'T_low', 'T_high', 'T_mid', 'a_low', 'a_high'):
             want = sp.attrs[attr]
             if attr == 'elements':
@@ -304,13 +358,125 @@ def compare_species(run, repo, res, label, key_suffix=''):
             fnr = m.functions.get('_read_line1' if attr in ('name', 'phase', 'elements', 'T_low', 'T_high', 'T_mid')
                                   else '_read_line2', rfn)       # where to point the report only
             need = 'T' if attr.startswith('T_') else ('coef' if attr.startswith('a_') else None)
-            if not run.check(val_eq(I, got, want, need), 'TABLE.readback', 'thermdat.read_thermdat', 'attr:' + attr + key_suffix,
-                             '[%s] %s of species %s reads back as %s, written from %s'
-                             % (label, attr, sp.name, show(I.plain(got), 120), show(want, 120)), m, fnr,
-                             sample='[%s] %s.%s survives write->read' % (label, sp.name, attr)
-                             if attr in ('elements', 'a_high') and sp.name == 's0' else None):
-                good = False
+            okv = val_eq(I, got, want, need)
+            diffs.append(('attr:' + attr, None if okv else '[%s] %s of species %s reads back as %s, written from %s'
+                          % (label, attr, sp.name, show(I.plain(got), 120), show(want, 120)), fnr,
+                          '[%s] %s.%s survives write->read' % (label, sp.name, attr)
+                          if attr in ('elements', 'a_high') and sp.name == 's0' else None))
+    return diffs
+
+
+def compare_species(run, repo, res, label, key_suffix=''):
+    m = repo.module(TD)
+    good = True
+    for key, msg, node, sample in species_diff(repo, res, label):
+        if not run.check(msg is None, 'TABLE.readback', 'thermdat.read_thermdat', key + key_suffix, msg, m, node,
+                         sample=sample):
+            good = False
     return good
+
+
+# ---------------------------------------------------------------------------
+# decisions of the reader that depend on how a text is spelled
+
+_QUOTED = re.compile(r'''('(?:[^'\\]|\\.)*'|"(?:[^"\\]|\\.)*")''')
+
+
+def hazard_literal(txt):
+    """the text a value-dependent test looks for in the user's text (what is tested, however the test is written:
+    ==, in, startswith, a slice compared ...), or None when the interpreter's record names none that a user text can
+    hold"""
+    head = txt
+    for mark in ('user-controlled text', 'in a line containing'):
+        k = head.find(mark)
+        if k >= 0:
+            head = head[:k]
+    mm = _QUOTED.search(head)
+    if not mm:
+        return None
+    try:
+        lit = ast.literal_eval(mm.group(1))
+    except (ValueError, SyntaxError):
+        return None
+    if not isinstance(lit, str) or not lit or not all(33 <= ord(c) < 127 for c in lit):
+        return None                 # blanks cannot be inside a user text but can follow it: not spelled out here
+    if set(lit) <= set('0123456789+-.eE'):
+        return None                 # may as well be met inside a formatted number
+    return lit
+
+
+def spellings(width, lit, every):
+    """texts of that width that contain ``lit``: at the start, inside, at the end (``every``: at every position)"""
+    n = width - len(lit)
+    if n < 0:
+        return []
+    offs = range(n + 1) if every else sorted({0, 1, 2, n // 2, n - 1, n} & set(range(n + 1)))
+    return [FILL * o + lit + FILL * (n - o) for o in offs]
+
+
+def text_fields(specs):
+    """(species index, position in the spec tuple, what, width) of every symbolic user text of an instance"""
+    out = []
+    for i, sp in enumerate(specs):
+        if isinstance(sp[0], int):
+            out.append((i, 0, 'name', sp[0]))
+        if isinstance(sp[1], int) and not isinstance(sp[1], bool):
+            out.append((i, 1, 'notes', sp[1]))
+        pw = sp[4] if len(sp) > 4 else 1
+        if isinstance(pw, int):
+            out.append((i, 4, 'phase', pw))
+    return out
+
+
+def both_outcomes(run, repo, hz, thorough):
+    """a test on a record line whose outcome depends on the spelling of a user text was decided 'no' by the symbolic
+    run; the same instances with the text spelled so that it says 'yes' must give back the same species.  The one
+    spelling left out is a name that begins with '!': '!' in column 1 is the comment marker of the Chemkin format, a
+    file cannot hold such a name whatever the reader does."""
+    m = repo.module(TD)
+    lit = hz['lit']
+    node = hz['node']
+    key = 'skip-test:' + norm(node)[:60]
+    hosts = [c for c in hz['seen'] if any(w >= len(lit) for _, _, _, w in text_fields(c[1]))]
+    if not hosts:
+        return None
+    single = [c for c in hosts if len(c[1]) == 1]
+    multi = [c for c in hosts if len(c[1]) > 1]
+    width = lambda c: max(w for _, _, what, w in text_fields(c[1]))
+    if thorough:
+        chosen, sigs = [], set()
+        for c in hosts:
+            sg = tuple(sorted((what, w) for _, _, what, w in text_fields(c[1]))) + tuple(sorted(c[2].items()))
+            if sg not in sigs:
+                sigs.add(sg)
+                chosen.append(c)
+    else:
+        chosen = sorted(single, key=width)[-1:] + multi[:1]
+    n_w = 0
+    for label, specs, kw in chosen:
+        many = len(specs) > 1
+        for i, pos, what, w in text_fields(specs):
+            if many and not thorough and what != 'name':
+                continue
+            for sp_ in spellings(w, lit, thorough):
+                if what == 'name' and sp_.startswith('!'):
+                    continue
+                spec2 = list(specs[i]) + [1] * (5 - len(specs[i]))
+                spec2[pos] = sp_
+                specs2 = list(specs)
+                specs2[i] = tuple(spec2)
+                lbl = '%s; %s of species %d spelled %r' % (label, what, i, sp_)
+                res = roundtrip(run, repo, lbl, specs2, **kw)
+                n_w += 1
+                if 'write_error' in res:
+                    run.fail('TABLE.write', 'thermdat.write_thermdat', 'raises', '[%s] writing raises %s'
+                             % (lbl, show(res['write_error'])), m, m.functions['write_thermdat'])
+                    continue
+                bad = [d for d in species_diff(repo, res, lbl) if d[1] is not None]
+                run.check(not bad, 'PATH.record-safe', 'thermdat.read_thermdat', key,
+                          'the file does not read back as written when a text contains %r, which the reader tests for '
+                          'on a species record (%s): %s' % (lit, hz['txt'][:100], bad[0][1] if bad else ''), m, node)
+    return n_w
 
 
 def check(run, repo):
@@ -319,17 +485,43 @@ def check(run, repo):
         '_is_temperature_header, _read_line_num) are interpreted over abstract strings: literal text plus symbolic '
         'fields of known width (names, notes, element symbols, phases as user text; counts, temperatures and '
         'coefficients as formatted numbers). For every enumerated combination of field widths (name 1/8/15, notes '
-        'absent/5/8 or date, 1-4 elements with 1-2 letter symbols and 1-3 digit counts plus zero-count entries, '
+        'absent/5/8 or date, 1-4 elements with 1-2 letter symbols and 1-3 digit counts plus zero-count entries - '
+        'comparisons of a count decided with a value inside its digit class and with the smallest and largest one -, '
         'temperatures of 3-6 characters, 1-3 species, list and dict input, list/tuple/dict output) the writer\'s '
         'abstract output is checked against the Chemkin column layout and fed to the reader; the species it builds '
-        'must equal the originals attribute by attribute and in order. Operations that cut through a field, '
-        'conversions of text that is not exactly one number, and substring tests whose outcome depends on user-'
-        'controlled text on a record line are reported.')
+        'must equal the originals attribute by attribute and in order. Concrete names (out of alphabetical order; '
+        'with END, THERMO, a leading digit, \'!\' inside), comment blocks that contain the keywords, and one file name '
+        'written and read twice by the same program are further instances. Operations that cut through a field, '
+        'conversions of text that is not exactly one number are reported; a test on a record line whose outcome '
+        'depends on user-controlled text is decided both ways (the text spelled out so that the test holds) and '
+        'both must give back the species written.')
     run.assumptions = ['E-format numbers with |exponent| < 100 have a value-independent width (coefficients of '
-                       'magnitude 1e-30..1e30)', 'user text fields contain no blanks (property: non-blank characters)']
+                       'magnitude 1e-30..1e30)', 'user text fields contain no blanks (property: non-blank characters)',
+                       'no name begins with \'!\' (column 1 \'!\' is the comment marker of the file format)']
     run.undecided = ['float()/int() on concrete digit strings and file I/O', 'values of 3-digit exponents']
     thorough = run.tier == 'thorough'
-    n_cases = 0
+    m = repo.module(TD)
+    state = {'n': 0}
+    hazards = {}
+
+    def instance(label, specs, layout=True, suffix=None, collect=True, **kw):
+        res = roundtrip(run, repo, label, specs, **kw)
+        state['n'] += 1
+        if 'write_error' in res:
+            run.fail('TABLE.write', 'thermdat.write_thermdat', 'raises', '[%s] writing raises %s'
+                     % (label, show(res['write_error'])), m, m.functions['write_thermdat'])
+            return None
+        if layout:
+            layout_rules(run, repo, res, label)
+        compare_species(run, repo, res, label, ' [%s]' % label if suffix is None else suffix)
+        if collect:
+            for node, txt in res['I'].hazards:
+                lit = hazard_literal(txt)
+                h = hazards.setdefault((id(node), lit), {'node': node, 'txt': txt, 'lit': lit, 'seen': []})
+                if 'reuse' not in kw:
+                    h['seen'].append((label, specs, dict(kw)))
+        return res
+
     temps = [(5, 6, 6), (3, 5, 4)]
     names = [1, 8, 15]
     notes = [None, '', 5, 8]
@@ -356,27 +548,33 @@ def check(run, repo):
              ('CH4(S)', 5, [(1, 1), (1, 1)], (5, 6, 6))]
     for as_dict, fmt in ((True, 'dict'), (True, 'list'), (False, 'list')):
         label = 'concrete names ZRO2, AR, CH4(S) input=%s format=%s' % ('dict' if as_dict else 'list', fmt)
-        res = roundtrip(run, repo, label, named, as_dict=as_dict, fmt=fmt)
-        n_cases += 1
-        if 'write_error' in res:
-            run.fail('TABLE.write', 'thermdat.write_thermdat', 'raises', '[%s] writing raises %s'
-                     % (label, show(res['write_error'])), repo.module(TD), repo.module(TD).functions['write_thermdat'])
-            continue
-        compare_species(run, repo, res, label, ' [concrete names]')
-    hazards_seen = {}
+        instance(label, named, layout=False, suffix=' [concrete names]', collect=False, as_dict=as_dict, fmt=fmt)
+    # names "of 1-15 non-blank printable characters": the keywords of the format inside a name, a leading digit,
+    # punctuation - '!' (the comment marker, when it is not the first character), '=', '-', ',' - and one-character
+    # names; concrete, so every test the reader makes on them is decided exactly
+    spelled = [('OH!v=1', 5, [(1, 1), (1, 1)], (5, 6, 6)), ('PENDING', None, [(1, 2)], (3, 5, 4)),
+               ('2-THERMO(S)', 5, [(1, 1), (2, 2)], (5, 6, 6)), ('CH2!', '', [(1, 1), (1, 1)], (5, 6, 6)),
+               ('ISOTHERMOXEND!1', 8, [(1, 3)], (6, 6, 6)), ('E', None, [(2, 1)], (3, 5, 4)),
+               ('END', 5, [(1, 1)], (5, 6, 6)), ('1', None, [(1, 1)], (5, 6, 6)), ('THERMO', 8, [(1, 2)], (5, 6, 6)),
+               ('A!', 5, [(1, 1)], (5, 6, 6))]
+    for as_dict, fmt, sel in ((False, 'list', spelled[:5]), (True, 'dict', spelled[3:]), (False, 'tuple', spelled[5:])):
+        label = 'concrete names %s input=%s format=%s' % (', '.join(s_[0] for s_ in sel),
+                                                          'dict' if as_dict else 'list', fmt)
+        instance(label, sel, layout=False, suffix=' [names with keywords and punctuation]', collect=False,
+                 as_dict=as_dict, fmt=fmt)
     for case in cases:
         label = 'name=%d notes=%s elements=%s temps=%s' % (case[0], case[1], case[2], case[3])
-        res = roundtrip(run, repo, label, [case])
-        n_cases += 1
-        if 'write_error' in res:
-            run.fail('TABLE.write', 'thermdat.write_thermdat', 'raises', '[%s] writing raises %s'
-                     % (label, show(res['write_error'])), repo.module(TD), repo.module(TD).functions['write_thermdat'])
-            continue
-        layout_rules(run, repo, res, label)
         wide = any(sw == 2 and dg == 3 for sw, dg in case[2])
-        compare_species(run, repo, res, label, ' [2-letter symbol with 3-digit count]' if wide else '')
-        for node, txt in res['I'].hazards:
-            hazards_seen.setdefault(getattr(node, 'lineno', 0), (node, txt))
+        instance(label, [case], suffix=' [2-letter symbol with 3-digit count]' if wide else '')
+    # element counts at both ends of their digit class: 1 and 9, 10 and 99, 100 and 999 (the runs above decide
+    # comparisons of a count with 5, 50, 500)
+    edge_cfgs = el_cfgs if thorough else [[(1, 1)], [(2, 2)], [(1, 3)], [(2, 3)],
+                                           [(1, 1), (2, 2), (1, 3), (2, 1)], [(2, 1), (1, 0), (1, 2), (2, 2)]]
+    for k, ec in enumerate(edge_cfgs):
+        for wit, what in (('lo', 'smallest'), ('hi', 'largest')):
+            label = 'counts the %s of their digit class, elements=%s' % (what, ec)
+            instance(label, [(names[k % 3], notes[(k + 2) % 4], ec, temps[k % 2])],
+                     suffix=' [counts at the %s value of their digit class]' % what, counts=wit)
     # several species, mixed; dict input; output formats; date stamp
     multi = [(8, 5, [(1, 1), (2, 2), (1, 3)], (5, 6, 6)), (3, None, [(2, 1)], (3, 5, 4)),
              (15, 8, [(1, 2), (1, 1)], (6, 6, 6))]
@@ -384,25 +582,11 @@ def check(run, repo):
         for fmt in ('list', 'tuple', 'dict'):
             for wd in (False, True):
                 label = '3 species input=%s format=%s date=%s' % ('dict' if as_dict else 'list', fmt, wd)
-                res = roundtrip(run, repo, label, multi, write_date=wd, as_dict=as_dict, fmt=fmt)
-                n_cases += 1
-                if 'write_error' in res:
-                    run.fail('TABLE.write', 'thermdat.write_thermdat', 'raises', '[%s] writing raises %s'
-                             % (label, show(res['write_error'])), repo.module(TD),
-                             repo.module(TD).functions['write_thermdat'])
-                    continue
-                layout_rules(run, repo, res, label)
-                compare_species(run, repo, res, label)
+                instance(label, multi, suffix='', collect=False, write_date=wd, as_dict=as_dict, fmt=fmt)
     # a sequence in which one species (one name) occurs more than once: a sequence is written entry by entry, in order
     for order, fmt in (((0, 1, 0), 'list'), ((0, 0), 'tuple'), ((1, 0, 2, 0, 1), 'list')):
         label = 'sequence with repeated species %s format=%s' % (list(order), fmt)
-        res = roundtrip(run, repo, label, multi, fmt=fmt, order=order)
-        n_cases += 1
-        if 'write_error' in res:
-            run.fail('TABLE.write', 'thermdat.write_thermdat', 'raises', '[%s] writing raises %s'
-                     % (label, show(res['write_error'])), repo.module(TD), repo.module(TD).functions['write_thermdat'])
-            continue
-        compare_species(run, repo, res, label, ' [repeated species]')
+        instance(label, multi, layout=False, suffix=' [repeated species]', collect=False, fmt=fmt, order=order)
     # further shapes of the input: names as long as the keywords END / THERMO, five composition entries of which one
     # has the count zero (four remain to be written), notes longer than their field (they are cut, nothing else moves),
     # and the same species written to a file instead of returned
@@ -417,56 +601,71 @@ def check(run, repo):
             ('written to a file', multi, {'to_file': True}),
             ('written to a file with date', multi, {'to_file': True, 'write_date': True})]
     for label, specs, kw_ in more:
-        res = roundtrip(run, repo, label, specs, **kw_)
-        n_cases += 1
-        if 'write_error' in res:
-            run.fail('TABLE.write', 'thermdat.write_thermdat', 'raises', '[%s] writing raises %s'
-                     % (label, show(res['write_error'])), repo.module(TD), repo.module(TD).functions['write_thermdat'])
+        instance(label, specs, layout='notes' not in label, **kw_)
+    # one program, one file name, written and read more than once: what the second read returns is the second
+    # collection (nothing of the first call is remembered), whichever format is asked for, and a further read of the
+    # unchanged file gives the same species again
+    second = [(15, 8, [(1, 2), (1, 1)], (6, 6, 6)), (8, 5, [(2, 2)], (5, 6, 6)), (3, None, [(2, 1), (1, 1)], (3, 5, 4))]
+    for to_file in (True, False):
+        how = 'file' if to_file else 'text'
+        first = instance('one file name written twice (%s): first collection' % how, multi[:2], layout=False,
+                         suffix=' [first of two collections under one file name]', collect=False, to_file=to_file)
+        if first is None:
             continue
-        if 'notes' not in label:
-            layout_rules(run, repo, res, label)
-        compare_species(run, repo, res, label, ' [%s]' % label)
-        for node, txt in res['I'].hazards:
-            hazards_seen.setdefault(getattr(node, 'lineno', 0), (node, txt))
-    # supplementary data / comment block in every combination of presence and final newline
+        for fmt in ('dict', 'list'):
+            again = read_again(repo, first, fmt)
+            compare_species(run, repo, again, 'first collection read again, format=%s' % fmt,
+                            ' [unchanged file read again]')
+        res2 = instance('one file name written twice (%s): second collection' % how, second, layout=False,
+                        suffix=' [same file name written again]', collect=False, to_file=to_file, reuse=first, tag0=20)
+        if res2 is None:
+            continue
+        for fmt in ('list', 'tuple'):
+            again = read_again(repo, res2, fmt)
+            compare_species(run, repo, again, 'second collection read again, format=%s' % fmt,
+                            ' [same file name written again]')
+    # supplementary data / comment block in every combination of presence and final newline; comment blocks whose text
+    # contains the keywords of the format (a comment never influences what is read), short and wider than a record
+    legend = '! Species fitted in this work\n! LEGEND: G = gas phase, S = surface species'
+    thermo = '! THERMO data, RECOMMENDED values'
+    long_c = '! ' + 'APPENDIX with the THERMO data of this work - ' * 2 + 'END of the header'
+    assert len(long_c) > 81
     for data_nl, txt, txt_nl in ((True, False, False), (False, False, False), (None, True, True), (None, True, False),
-                                 (True, True, True), (False, True, True), (True, True, False), (False, True, False)):
+                                 (True, True, True), (False, True, True), (True, True, False), (False, True, False),
+                                 (None, legend, True), (None, legend, False), (None, thermo, True), (True, thermo, False),
+                                 (None, long_c, True), (False, long_c + '\n' + legend, False)):
         label = 'supp_data=%s supp_txt=%s' % (
             {None: 'absent', True: 'ends with newline', False: 'no final newline'}[data_nl],
             'absent' if not txt else ('ends with newline' if txt_nl else 'no final newline'))
-        res = roundtrip(run, repo, label, [multi[0]], supp=(data_nl, txt, txt_nl))
-        n_cases += 1
-        if 'write_error' in res:
-            run.fail('TABLE.write', 'thermdat.write_thermdat', 'raises', '[%s] writing raises %s'
-                     % (label, show(res['write_error'])), repo.module(TD), repo.module(TD).functions['write_thermdat'])
+        if isinstance(txt, str):
+            label += ' comment=%r' % (txt[:24] + '...')
+        res = instance(label, [multi[0]], layout=False, collect=False, supp=(data_nl, txt, txt_nl))
+        if res is None:
             continue
         # every record keeps a line of its own
-        recs = [ln for ln in res['lines'] if len(ln.fields()) and not (ln.segs[0].kind == 'lit' and
-                                                                      ln.segs[0].text.startswith('!'))]
         shared = [ln for ln in res['lines'] if '!' in ''.join(s_.text for s_ in ln.segs if s_.kind == 'lit')
                   and len(ln.fields())]
         run.check(not shared, 'TABLE.records', 'thermdat.write_thermdat', 'supplementary blocks on their own lines',
                   '[%s] a record shares its line with the comment block: %s' % (label, show(shared[0], 160) if shared
                                                                                else ''),
-                  repo.module(TD), repo.module(TD).functions['write_thermdat'])
-        compare_species(run, repo, res, label, ' [%s]' % label)
-    run.floor('thermdat cases', n_cases, 39)
-    run.extra['cases'] = n_cases
+                  m, m.functions['write_thermdat'])
+    run.floor('thermdat cases', state['n'], 70)
+    run.extra['cases'] = state['n']
     # record lines must never be classified by a test that depends on user-controlled text
-    m = repo.module(TD)
-    rfn = m.functions['read_thermdat']
     for f_ in ('read_thermdat', 'write_thermdat'):
         run.fn(TD + '.' + f_)
-    for ln, (node, txt) in sorted(hazards_seen.items()):
-        from ..source import norm
-        if "comparison with '!'" in txt:
-            # '!' in column 1 is the Chemkin comment marker: a name starting with it is ambiguous in the file
-            # format itself, whatever the reader does
-            continue
-        run.fail('PATH.record-safe', 'thermdat.read_thermdat', 'skip-test:' + norm(node)[:60],
-                 'a species record can be skipped (and the following records merged into the previous species) '
-                 'because the line classifier uses %s' % txt[:160], m, node)
-    if not hazards_seen:
+    n_wit = 0
+    for _, hz in sorted(hazards.items(), key=lambda kv: (getattr(kv[1]['node'], 'lineno', 0), str(kv[1]['lit']))):
+        done = both_outcomes(run, repo, hz, thorough) if hz['lit'] is not None else None
+        if done is None:
+            # nothing names a text that could be spelled out: the dependence itself is the finding
+            run.fail('PATH.record-safe', 'thermdat.read_thermdat', 'skip-test:' + norm(hz['node'])[:60],
+                     'a species record can be skipped (and the following records merged into the previous species) '
+                     'because the line classifier uses %s' % hz['txt'][:160], m, hz['node'])
+        else:
+            n_wit += done
+    run.extra['spelled-out instances'] = n_wit
+    if not hazards:
         run.ok('PATH.record-safe', 'thermdat.read_thermdat')
 
 
@@ -497,7 +696,35 @@ MUTANTS = [
      'edits': [(T_, "            f_ptr.write(lines_out)", "            for line in lines_out.splitlines():\n                f_ptr.write(line.strip() + newline)")]},
     {'name': 'dictionary input written in alphabetical order', 'expect': ('TABLE.readback', 'read_thermdat'),
      'edits': [(T_, "        nasa_iter = nasa_species.values()", "        nasa_iter = [nasa_species[key] for key in sorted(nasa_species)]")]},
+    # white-box round 2
+    {'name': 'reading stops at the first short line that contains END (a comment with LEGEND)',
+     'expect': ('TABLE.readback', 'read_thermdat'),
+     'edits': [(T_, "            if not is_record and 'END' in line:\n                continue", "            if not is_record and 'END' in line:\n                break")]},
+    {'name': 'a comment line that contains THERMO restarts the species list',
+     'expect': ('TABLE.readback', 'read_thermdat'),
+     'edits': [(T_, "            if not is_record and 'THERMO' in line:\n                continue", "            if not is_record and 'THERMO' in line:\n                species = []\n                continue")]},
+    {'name': 'parsed files memoised by file name (lru_cache on read_thermdat)', 'expect': ('TABLE.readback', 'read_thermdat'),
+     'edits': [(T_, "def read_thermdat(filename, format='list', key='name'):", "@lru_cache(maxsize=32)\ndef read_thermdat(filename, format='list', key='name'):"),
+               (T_, "from datetime import datetime\n", "from datetime import datetime\nfrom functools import lru_cache\n")]},
+    {'name': 'digits of a count from thresholds, wrong at exactly 100', 'expect': ('TABLE', ''),
+     'edits': [(T_, "            two_digit = len(str(val)) - 1", "            two_digit = 2 if val > 100 else (1 if val >= 10 else 0)")]},
+    {'name': 'digits of a count from thresholds, wrong at 99', 'expect': ('TABLE', ''),
+     'edits': [(T_, "            two_digit = len(str(val)) - 1", "            two_digit = 2 if val >= 99 else (1 if val >= 10 else 0)")]},
+    {'name': 'everything after a ! is a comment (names that contain one are cut)', 'expect': ('TABLE.readback', 'read_thermdat'),
+     'edits': [(T_, "            # Skip header temperatures\n            if _is_temperature_header(line):", "            line = line.split('!')[0]\n            if _is_temperature_header(line):")]},
+    {'name': 'short lines starting with END or THERMO are keywords, whatever their length (a species named END...)',
+     'expect': ('PATH.record-safe', 'read_thermdat'),
+     'edits': [(T_, "            is_record = len(line.rstrip()) >= 80\n", "            is_record = not (line.startswith('END') or line.startswith('THERMO'))\n")]},
 ]
 EQUIV = [
     {'name': 'reader positions computed', 'edits': [(T_, "    positions = [0, 15, 30, 45]\n    offset = 15\n\n    j = 3", "    offset = 15\n    positions = [offset * k for k in range(4)]\n\n    j = 3")]},
+    # white-box round 2: other spellings of the same tests and formats
+    {'name': 'comment test spelled startswith', 'edits': [(T_, "            if line[0] == '!':", "            if line.startswith('!'):")]},
+    {'name': 'comment test spelled with a slice', 'edits': [(T_, "            if line[0] == '!':", "            if line[:1] == '!':")]},
+    {'name': 'keyword tests with their operands exchanged',
+     'edits': [(T_, "            if not is_record and 'THERMO' in line:", "            if 'THERMO' in line and not is_record:"),
+               (T_, "            if not is_record and 'END' in line:", "            if 'END' in line and not is_record:")]},
+    {'name': 'record 2 written with %-formatting',
+     'edits': [(T_, "    line = ('{: 2.8E}{: 2.8E}{: 2.8E}{: 2.8E}{: 2.8E}    2\\n'\n            ''.format(nasa_specie.a_high[0], nasa_specie.a_high[1],\n                      nasa_specie.a_high[2], nasa_specie.a_high[3],\n                      nasa_specie.a_high[4]))",
+                "    line = ''.join(['% .8E' % nasa_specie.a_high[i] for i in range(5)]) + '    2\\n'")]},
 ]
